@@ -74,6 +74,7 @@ func checkHostileRequest(rec *stats.Recorder, c hostileReq) string {
 	if err != nil {
 		return "" // net/http itself rejects the request line: never reaches the library
 	}
+	tunnelled := req.Header.Get("X-HTTP-Method-Override") != "" // (read now: the server de-tunnels the request in place)
 	rr := newRecorder()
 	if p, pv, st := hx.Try(func() { w.handler.ServeHTTP(rr, req) }); p {
 		return fmt.Sprintf("the server crashed on a malformed request (a real connection would be aborted): %v\n%s\n request: %s %s headers=%v body=%s", pv, trimStack(st), c.Verb, hx.Q(c.URI), c.Header, hx.Q(c.Body))
@@ -94,7 +95,33 @@ func checkHostileRequest(rec *stats.Recorder, c hostileReq) string {
 	if invoked > 1 {
 		return fmt.Sprintf("one request invoked %d resource methods", invoked) + desc
 	}
+	// "a malformed request is answered with a 4xx ... never with an invocation of resource code": asserted where the request
+	// is malformed beyond doubt - an untunnelled request that reached a method reading its input from the body, with a body
+	// that is structurally not one JSON object (tolerant judgement, see brokenJSONObject)
+	if invoked == 1 && !tunnelled {
+		imi := dyn.FindMethod(S, sl.invocations[0].Call.Resource, sl.invocations[0].Call.Method)
+		if imi != nil && inputInBody(imi) {
+			if why := brokenJSONObject(c.Body); why != "" {
+				return fmt.Sprintf("a request whose body is not a JSON object (%s) reached %s.%s and was answered %d", why, imi.R.Namespace, imi.Func, status) + desc
+			}
+			rec.Label("request_body_reached_resource_code", 1)
+		}
+	} else if invoked == 0 && status >= 400 && brokenJSONObject(c.Body) != "" {
+		rec.Label("request_malformed_beyond_doubt_rejected", 1)
+	}
 	return ""
+}
+
+// inputInBody: the server reads the method's input from the request body.
+func inputInBody(mi *dyn.MethodInfo) bool {
+	if mi.M.Kind == "ACTION" {
+		return len(mi.M.Params) > 0
+	}
+	switch mi.Rest() {
+	case "create", "update", "partial_update", "batch_create", "batch_update", "batch_partial_update":
+		return true
+	}
+	return false
 }
 
 // benignHook answers whatever method is hit with a well-formed empty outcome.
@@ -212,10 +239,92 @@ func checkHostileResponse(rec *stats.Recorder, c hostileResp) string {
 	rec.NonTrivial("response", hx.J(c), func() any { return c })
 	cl := &restli.Client{Client: &http.Client{Transport: cannedTransport{&c}}, HostnameResolver: &restli.SimpleHostnameResolver{Hostname: getWorld("bare").baseURL("verif.test")},
 		StrictResponseDeserialization: !c.Lenient}
-	if p, pv, st := hx.Try(func() { _, _, _ = dyn.CallClient(S, contextBackground(), cl, &c.Call, nil) }); p {
+	var got *dyn.Outcome
+	var err error
+	if p, pv, st := hx.Try(func() { got, err, _ = dyn.CallClient(S, contextBackground(), cl, &c.Call, nil) }); p {
 		return fmt.Sprintf("a malformed response made the client call panic in the caller's goroutine: %v\n%s\n %s.%s\n response: %d %v %s", pv, trimStack(st), c.Call.Resource, c.Call.Method, c.Status, c.Header, hx.Q(c.Body))
 	}
+	// "a malformed response makes the client call return an error": asserted where the response is malformed beyond doubt -
+	// a success status without the error header, on a method whose result is read from the body, and a body that the
+	// independent strict parser does not read as a JSON object (not JSON at all, truncated, trailing bytes, null, an array)
+	mi := dyn.FindMethod(S, c.Call.Resource, c.Call.Method)
+	if (c.Status == 200 || c.Status == 201) && c.Header["X-Restli-Error-Response"] == "" && c.Header["X-RestLi-Error-Response"] == "" && resultInBody(mi) {
+		if perr := brokenJSONObject(c.Body); perr != "" {
+			rec.Label("response_malformed_beyond_doubt", 1)
+			if err == nil {
+				return fmt.Sprintf("a response whose body is not a JSON object (%v) was turned into a successful result %s\n %s.%s lenient=%v\n response: %d %v %s", perr, hx.J(got), c.Call.Resource, c.Call.Method, c.Lenient, c.Status, c.Header, hx.Q(c.Body))
+			}
+		}
+	}
 	return ""
+}
+
+// brokenJSONObject is a deliberately tolerant judgement (lenient number spellings, duplicate keys, text that is not UTF-8
+// are NOT its business): it reports a body that is structurally not one JSON object - empty, another kind of value,
+// brackets or strings left open (a truncated document), a closing bracket that does not match, bytes after the object.
+func brokenJSONObject(body string) string {
+	i := 0
+	for i < len(body) && strings.ContainsRune(" \t\r\n", rune(body[i])) {
+		i++
+	}
+	if i == len(body) {
+		return "empty body"
+	}
+	if body[i] != '{' {
+		return "the top-level value is not an object"
+	}
+	var stack []byte
+	inStr := false
+	for ; i < len(body); i++ {
+		ch := body[i]
+		if inStr {
+			switch ch {
+			case '\\':
+				i++
+			case '"':
+				inStr = false
+			}
+			continue
+		}
+		switch ch {
+		case '"':
+			inStr = true
+		case '{', '[':
+			stack = append(stack, ch)
+		case '}', ']':
+			if len(stack) == 0 || (ch == '}') != (stack[len(stack)-1] == '{') {
+				return "a closing bracket matches no opening one"
+			}
+			stack = stack[:len(stack)-1]
+			if len(stack) == 0 {
+				if strings.Trim(body[i+1:], " \t\r\n") != "" {
+					return "bytes follow the top-level object"
+				}
+				return ""
+			}
+		}
+	}
+	if inStr {
+		return "a string is left open"
+	}
+	return "an object or array is left open"
+}
+
+// resultInBody: the client reads the method's result from the response body.
+func resultInBody(mi *dyn.MethodInfo) bool {
+	switch {
+	case mi.M.Kind == "FINDER":
+		return true
+	case mi.M.Kind == "ACTION":
+		return mi.M.Return != nil
+	}
+	switch mi.Rest() {
+	case "get", "get_all", "batch_get", "batch_create", "batch_update", "batch_partial_update", "batch_delete":
+		return true
+	case "create", "partial_update":
+		return mi.M.ReturnEntity
+	}
+	return false
 }
 
 func TestC04Responses(t *testing.T) {
